@@ -955,7 +955,8 @@ static void m6_case(Tape &t)
 	BearServer s(sp);
 	VF_CHECK(c.reset() && s.reset(), "m6: reset");
 	BearEndpoint *v = victim_server ? (BearEndpoint *)&s : (BearEndpoint *)&c, *o = victim_server ? (BearEndpoint *)&c : (BearEndpoint *)&s;
-	unsigned type = t.pick<unsigned>({ 20, 20, 20, 22 });
+	// ChangeCipherSpec, handshake, and content types that do not exist (a record of such a type must never be read as handshake data)
+	unsigned type = t.pick<unsigned>({ 20, 20, 20, 22, 24, 25, 0, 19, 255, 24 });
 	unsigned shape = t.u8() % 4;
 	Bytes pl;
 	unsigned n = 1 + t.u8() % 10;
